@@ -30,7 +30,7 @@ func Prefix(strs ...string) string {
 	prefix := ""
 	old_prefix := ""
 	for i := 0; i < len(short); i++ {
-		prefx_array = append(prefx_array, string(short[i]))
+		prefx_array = append(prefx_array, short[i:i+1])
 		prefix = strings.Join(prefx_array, "")
 		for _, s := range strs {
 			if !strings.HasPrefix(s, prefix) {
